@@ -383,6 +383,15 @@ func RunOne(t *testing.T, sc *Scenario, tr *vh.Tracer, base string) bool {
 			r.reopen(ctx, "rw")
 		}
 	}
+	// direct: run Delete / GC on the calling goroutine (the concurrent tail registers that goroutine with the
+	// scheduler; the watchdog goroutine of guarded() would pass the scheduling points unparked)
+	direct := false
+	run := func(f func() error) error {
+		if direct {
+			return f()
+		}
+		return guarded(f)
+	}
 	doOp := func(op Op) (m map[string]any, mutating bool) {
 		m = map[string]any{"e": "op", "op": op.Op, "n": op.N, "ref": op.Ref}
 		mutating = true
@@ -418,13 +427,13 @@ func RunOne(t *testing.T, sc *Scenario, tr *vh.Tracer, base string) bool {
 		case "untag":
 			m["res"] = cls(ost.Untag(ctx, op.Ref))
 		case "delete":
-			err := guarded(func() error { return ost.Delete(ctx, g.Descs[op.N]) })
+			err := run(func() error { return ost.Delete(ctx, g.Descs[op.N]) })
 			m["res"] = cls(err)
 			if err == errHang {
 				m["res"] = "hang"
 			}
 		case "gc":
-			err := guarded(func() error { return ost.GC(ctx) })
+			err := run(func() error { return ost.GC(ctx) })
 			m["res"] = cls(err)
 			if err == errHang {
 				m["res"] = "hang"
@@ -502,6 +511,7 @@ func RunOne(t *testing.T, sc *Scenario, tr *vh.Tracer, base string) bool {
 	}
 	// the concurrent tail: the operations of sc.Par run as goroutines, released one scheduling point at a time
 	tr.Emit(map[string]any{"e": "par", "ops": sc.Par})
+	direct = true
 	ps := &vh.PSched{Quiet: time.Duration(vh.EnvInt("VH_QUIETUS", 400)) * time.Microsecond}
 	verifhook.Set(ps.Point)
 	var emu sync.Mutex
@@ -687,6 +697,23 @@ func genScenario(rng *rand.Rand, kind string) Scenario {
 				sc.Par = append(sc.Par, Op{Op: "tag", N: absent, Ref: hotref})
 			}
 			return sc
+		}
+		if kind == "oci" && rng.Intn(4) == 0 {
+			// a GC racing with a Tag (and a Push) of content it may be about to sweep
+			var pushed []int
+			for _, o := range sc.Ops {
+				if o.Op == "push" && vh.IsManifestKind(nodes[o.N].Kind) {
+					pushed = append(pushed, o.N)
+				}
+			}
+			if len(pushed) > 0 {
+				m := pushed[rng.Intn(len(pushed))]
+				sc.Par = []Op{{Op: "gc"}, {Op: "tag", N: m, Ref: hotref}}
+				if rng.Intn(2) == 0 {
+					sc.Par = append(sc.Par, Op{Op: "push", N: node()})
+				}
+				return sc
+			}
 		}
 		for k := 2 + rng.Intn(2); k > 0; k-- {
 			x := rng.Intn(100)
